@@ -67,6 +67,15 @@ func (k ServerKey) KeyID() []byte {
 type Session struct {
 	in  cipher.Stream // decrypts client->server
 	out cipher.Stream // encrypts server->client
+	// key material of the server->client direction, kept to build a reference receiver
+	outKey, outIV []byte
+}
+
+// ReferenceReceiver returns a framer that decodes the server->client stream from its first byte,
+// i.e. what a receiver following the specification extracts from the bytes actually delivered.
+func (s *Session) ReferenceReceiver() *Framer {
+	blk, _ := aes.NewCipher(s.outKey)
+	return &Framer{S: &Session{in: cipher.NewCTR(blk, s.outIV)}}
 }
 
 func (k ServerKey) Handshake(req []byte) (*Session, error) {
@@ -95,8 +104,10 @@ func (k ServerKey) Handshake(req []byte) (*Session, error) {
 	inBlk, _ := aes.NewCipher(enc[32:64])
 	outBlk, _ := aes.NewCipher(enc[0:32])
 	return &Session{
-		in:  cipher.NewCTR(inBlk, enc[80:96]),
-		out: cipher.NewCTR(outBlk, enc[64:80]),
+		in:     cipher.NewCTR(inBlk, enc[80:96]),
+		out:    cipher.NewCTR(outBlk, enc[64:80]),
+		outKey: append([]byte{}, enc[0:32]...),
+		outIV:  append([]byte{}, enc[64:80]...),
 	}, nil
 }
 
